@@ -140,5 +140,7 @@ pub fn specs(tier: &str) -> Vec<ExpSpec> {
     v.extend(crate::c03::garbage_specs(th));
     v.extend(crate::c03::fragmented_dir_specs(th));
     v.extend(crate::c03::full_dir_specs(th));
+    v.extend(crate::c03::dot_path_specs(th));
+    v.extend(crate::c03::name_specs(th));
     v
 }
